@@ -18,7 +18,7 @@ CALLERS_ONCE = "caller history: the recovery layer reports each sent frame ackno
 
 PROPS["C02"] = dict(
     functions=["quic/packet.py::decode_packet_number"],
-    bounded=[],
+    bounded=["native-xcheck-pn"],
     scope="decided for all inputs: a truncated packet number is expanded to the candidate congruent to it that is closest to the next expected number (window (e-h, e+h]), for all four packet-number lengths, all truncated values and all expected numbers below 2^62",
     lemma="C02 sentence 1, clause 'a truncated packet number is always expanded to the candidate closest to the next expected number' = ensures.0-3 of decode_packet_number, proved per num_bits with the case split proved complete",
     not_decided="AEAD/header-protection round trip in _crypto.c, agreement with a second implementation, and 'an altered packet changes nothing' (cryptographic assumptions and C code outside pyvc's reach; the planned C VC generator cwp is not built)",
@@ -28,7 +28,7 @@ PROPS["C02"] = dict(
 
 PROPS["C06"] = dict(
     functions=[(TX + "get_frame", 4), TX + "write", TX + "get_reset_frame", RS + "add", RS + "shift", RS + "__getitem__"],
-    bounded=["rangeset-smallscope", "stream-sender-model"],
+    bounded=["rangeset-smallscope", "stream-sender-model", "native-xcheck-stream"],
     scope="decided for all states and arguments of the send half: every STREAM frame cut by get_frame ends at or below max_offset (the per-stream/connection credit handed in by the connection) and carries at most max_size bytes; highest_offset is the running maximum of frame ends, so a retransmitted range (offset below highest_offset) does not raise it and consumes no additional credit; the RESET_STREAM final size equals highest_offset",
     lemma="per-stream clause of C06: by induction over calls, highest_offset = max over emitted frames of offset+len (get_frame ensures.5/6, write leaves it unchanged), and each emitted frame satisfies offset+len <= max_offset (ensures.2); hence highest offset sent <= the limit passed by the caller at that call",
     not_decided="that QuicConnection._write_stream_frame passes min(per-stream limit, connection credit) as max_offset, the connection-level sum, and stream-count limits (connection.py is outside the subset the engine handles today); 'blocked data is sent once the limit is raised' (liveness)",
@@ -38,7 +38,7 @@ PROPS["C06"] = dict(
 
 PROPS["C07"] = dict(
     functions=[RX + "handle_reset", RX + "handle_frame", RX + "_pull_data"],
-    bounded=["stream-receiver-model"],
+    bounded=["stream-receiver-model", "native-xcheck-stream"],
     scope="decided for all receive-half states and all frames/resets: FinalSizeError is raised exactly when data lies beyond, or a FIN or reset disagrees with, an already fixed final size (both directions), an accepted FIN/reset fixes the final size, highest_offset is the running maximum of frame ends, and a refused frame/reset leaves final size, highest offset, delivery position and finished flag unchanged",
     lemma="final-size clause of C07 ('a final size beyond/contradicting ... closes with the final-size error, a conforming peer is never accused') = raises-iff of handle_frame and handle_reset; connection.py maps FinalSizeError to FINAL_SIZE_ERROR (not proved here)",
     not_decided="flow-control and stream-limit checks in connection.py (_handle_stream_frame, _get_or_create_stream), reassembly byte bounds, MAX_PENDING_CRYPTO / challenge / retire caps",
@@ -47,11 +47,11 @@ PROPS["C07"] = dict(
 )
 
 PROPS["C08"] = dict(
-    functions=[RENO + "__init__", RENO + "on_packet_acked", RENO + "on_packet_sent", RENO + "on_packets_lost"],
-    bounded=[],
-    scope="decided for the Reno controller, all call sequences (class invariant): congestion_window >= 2 * max_datagram_size after construction and after every acked/sent/lost callback; a loss event never raises the window; bytes_in_flight changes by exactly the packet size on sent/acked",
+    functions=[RENO + "__init__", RENO + "on_packet_acked", RENO + "on_packet_sent", RENO + "on_packets_lost", "quic/congestion/cubic.py::CubicCongestionControl.on_packets_lost"],
+    bounded=["native-xcheck-reno"],
+    scope="decided for the Reno controller, all call sequences (class invariant): congestion_window >= 2 * max_datagram_size after construction and after every acked/sent/lost callback; a loss event never raises the window; bytes_in_flight changes by exactly the packet size on sent/acked. CUBIC: on_packets_lost alone, as a Hoare triple (window >= 2*mds before implies window >= 2*mds after)",
     lemma="clause 'the congestion window never drops below two datagrams' = class invariant of RenoCongestionControl (established by __init__, preserved by on_packet_acked, on_packet_sent, on_packets_lost)",
-    not_decided="CUBIC (float cube roots), the in-flight ledger of QuicPacketRecovery (sum over the sent-packet maps), at-most-once delivery callbacks, the builder's flight budget",
+    not_decided="CUBIC on_packet_acked / reset (float cube roots; its window growth is not under contract, so the CUBIC floor is not an inductive class invariant here), the in-flight ledger of QuicPacketRecovery (sum over the sent-packet maps), at-most-once delivery callbacks, the builder's flight budget",
     trusted_base=BASE + [A1, "QuicRttMonitor.__init__ assumed total (stub)"],
     assumptions=[A1, A2],
 )
@@ -62,7 +62,7 @@ PROPS["C10"] = dict(
         RX + "handle_reset", RX + "handle_frame", RX + "_pull_data",
         (TX + "get_frame", 4), TX + "write", TX + "reset", TX + "get_reset_frame", TX + "on_reset_delivery",
     ],
-    bounded=["rangeset-smallscope", "stream-receiver-model", "stream-sender-model"],
+    bounded=["rangeset-smallscope", "stream-receiver-model", "stream-sender-model", "native-xcheck-stream"],
     scope="decided for all inputs and call histories: RangeSet add/shift/bounds/index against the abstract set-of-integers view with the sortedness/disjointness representation invariant; receive half: final-size error exactly when required, FIN/reset fix the final size; send half: frames start at the first pending offset, stay within size and offset caps, remove exactly their range from the pending set, write adds exactly the written range, nothing is offered after reset (get_frame refuses), reset latches the first error code, completion on acknowledged reset",
     lemma="the listed clauses of C10 are postconditions / raises-iff clauses of the functions above; byte-for-byte equality of delivered data with the reference offset->byte map, and re-offer after loss (on_data_delivery), are covered only by the bounded model-based stand-ins",
     not_decided="byte equality with the reference model and QuicStreamSender.on_data_delivery are bounded only; RangeSet.subtract is assumed + bounded",
@@ -82,7 +82,7 @@ PROPS["C12"] = dict(
 
 PROPS["C15"] = dict(
     functions=["h3/connection.py::validate_header_name", "h3/connection.py::validate_header_value"],
-    bounded=[],
+    bounded=["native-xcheck-h3"],
     scope="decided for all byte strings: validate_header_name raises MessageError exactly when some byte is a control/space (<=0x20), upper-case, DEL/non-ASCII (>=0x7F) or a non-initial colon; validate_header_value raises exactly when the value contains NUL/CR/LF or starts or ends with SP/HTAB",
     lemma="name/value clauses of C15 = raises-iff (both directions, existential over positions, loop invariants) of the two validators",
     not_decided="pseudo-header ordering / allow-list / required-list in validate_headers (sets of bytes, int(bytes)), content-length accounting, that every event is preceded by validation",
@@ -92,7 +92,7 @@ PROPS["C15"] = dict(
 
 PROPS["C17"] = dict(
     functions=["buffer.py::size_uint_var"],
-    bounded=["varint-codec"],
+    bounded=["varint-codec", "native-xcheck-varint"],
     scope="decided for all integers: size_uint_var returns the RFC 9000 §16 minimal length in {1,2,4,8} and raises ValueError exactly above 2^62-1; the C encoder/decoder (_buffer.c push_uint_var / pull_uint_var) is compared with an RFC-derived spec function only by the bounded stand-in varint-codec (boundary values and random samples)",
     lemma="varint length clause of C17; the round trip of the C codec is bounded only",
     not_decided="_buffer.c functional correctness (C outside pyvc; cwp not built), packet headers, transport parameters, TLS messages",
